@@ -710,6 +710,56 @@ pub fn cts_run(mode: &str, bs: usize, ck: CK, key: &[u8], iv: &[u8], tag: u8, ct
     }
 }
 
+fn cts_pair<M>(m: M, decrypt: bool, form: u8, a: &[u8], oa: &mut [u8], b: &[u8], ob: &mut [u8], clone_first: bool) -> (Result<(), ()>, Result<(), ()>)
+where
+    M: cts::Encrypt + cts::Decrypt + Clone,
+{
+    // the clone and the original are each consumed by one call, in either order
+    let c = m.clone();
+    let run = |x: M, i: &[u8], o: &mut [u8]| if decrypt { cts_dec(x, form, i, o) } else { cts_enc(x, form, i, o) };
+    if clone_first {
+        let rc = run(c, b, ob);
+        let ro = run(m, a, oa);
+        (ro, rc)
+    } else {
+        let ro = run(m, a, oa);
+        let rc = run(c, b, ob);
+        (ro, rc)
+    }
+}
+
+macro_rules! cts_pair_all {
+    ($C:ty, $c:expr, $mode:expr, $key:expr, $iv:expr, $($rest:expr),*) => {
+        match $mode {
+            "cbc-cs1" => construct::<cts::CbcCs1<$C>>($c, $key, $iv, 0).map(|m| cts_pair(m, $($rest),*)).map_err(|_| MkErr::Rejected),
+            "cbc-cs2" => construct::<cts::CbcCs2<$C>>($c, $key, $iv, 0).map(|m| cts_pair(m, $($rest),*)).map_err(|_| MkErr::Rejected),
+            "cbc-cs3" => construct::<cts::CbcCs3<$C>>($c, $key, $iv, 0).map(|m| cts_pair(m, $($rest),*)).map_err(|_| MkErr::Rejected),
+            "ecb-cs1" => Ok(cts_pair(<cts::EcbCs1<$C> as InnerInit>::inner_init($c), $($rest),*)),
+            "ecb-cs2" => Ok(cts_pair(<cts::EcbCs2<$C> as InnerInit>::inner_init($c), $($rest),*)),
+            "ecb-cs3" => Ok(cts_pair(<cts::EcbCs3<$C> as InnerInit>::inner_init($c), $($rest),*)),
+            _ => Err(MkErr::Unsupported),
+        }
+    };
+}
+
+/// one cts object, cloned; original processes `a`, the clone processes `b` (C16)
+#[allow(clippy::too_many_arguments)]
+pub fn cts_clone_pair(mode: &str, bs: usize, ck: CK, key: &[u8], iv: &[u8], tag: u8, decrypt: bool, form: u8, a: &[u8], oa: &mut [u8], b: &[u8], ob: &mut [u8], clone_first: bool) -> Result<(Result<(), ()>, Result<(), ()>), MkErr> {
+    crate::simcipher::env_new_tag(tag);
+    match ck {
+        CK::Sim => {
+            macro_rules! go {
+                ($U:ty, $x:expr) => {
+                    cts_pair_all!(SimCipher<$U>, SimCipher::<$U>::with_tag(key, tag), mode, key, iv, decrypt, form, a, oa, b, ob, clone_first)
+                };
+            }
+            general_bs!(bs, go, ())
+        }
+        CK::Aes128 if bs == 16 => cts_pair_all!(Traced<Aes128>, real_key::<Aes128>(key, tag), mode, key, iv, decrypt, form, a, oa, b, ob, clone_first),
+        _ => Err(MkErr::Unsupported),
+    }
+}
+
 /// raw single-block primitive of a cipher kind (for the reference model and for C14's
 /// "ECB variants equal raw block encryption")
 pub fn prim_enc(ck: CK, key: &[u8], block: &mut [u8]) {
